@@ -71,9 +71,6 @@ func (bm *BucketMeta) Size() int64 {
 // ReadBucketMeta returns bucketMeta at given file path name.
 func ReadBucketMeta(name string) (bucketMeta *BucketMeta, err error) {
 	var off int64
-	if err := vfs("create", name, -1, nil); err != nil {
-		return nil, err
-	}
 	fd, err := os.OpenFile(name, os.O_RDONLY, 0644)
 	defer fd.Close()
 	if err != nil {
